@@ -283,9 +283,11 @@ def _get_generaldyne_samples(state, modes, shots, detection_covariance):
     #
     # We might be better of setting `check_valid='ignore'` and verifying
     # positive-definiteness for ourselves.
+    # NOTE: The covariance matrices are twice the covariance of the quadratures (the
+    # vacuum has covariance `hbar * I`), hence the outcomes have covariance `cov / 2`.
     return state._config.rng.multivariate_normal(
         mean=mean,
-        cov=cov,
+        cov=cov / 2,
         size=shots,
         tol=1e-7,
     )
